@@ -92,6 +92,9 @@ structure S where
   nHup : Nat := 0
   nTerm : Nat := 0
   nAsync : Nat := 0
+  /-- goroutines started by `Host.NotifyComponentStatusChange` that wait to hand a component's FatalError over on
+  `asyncErrorChannel` (repaired host: they give up when their service is shut down) -/
+  nFatal : Nat := 0
   ctxDone : Bool := false
   /-- number of `setupConfigurationComponents` executions begun = generation of the configuration -/
   gen : Nat := 0
@@ -123,6 +126,7 @@ inductive Label
   | close                 -- such a goroutine executes `close(col.shutdownChan)` (see `closeStep`)
   | post (e : Ev)
   | cancel
+  | fatal                 -- a component reports StatusFatalError through its host (any goroutine, any moment)
   | begin                 -- Run is called
   | step (ok : Bool)      -- the Run goroutine executes its next statement; `ok` = outcome if it can fail
   | pick (e : Ev)         -- the select receives on a ready branch
@@ -130,10 +134,15 @@ inductive Label
 
 def S.emit (s : S) (e : TEv) : S := { s with log := s.log ++ [e] }
 
-/-- `col.service.Shutdown(ctx)` -/
+/-- `col.service.Shutdown(ctx)`. IMPORTED FROM C10 (`C10_exactly_once`, `C10_stop_failure`, proved for every set of failing
+component shutdowns): `Service.Shutdown` shuts every component of the service down exactly once even when some of those
+shutdowns fail and it returns an error — hence the generation leaves `live` whatever the outcome `ok` of the step that
+calls this. On the real collector the component-level log is judged by the monitor, which does not take this for granted.
+Pending fatal-error hand-overs of the service are abandoned (`nFatal := 0`, repaired host). That the call RETURNS is an
+assumption of the model (see `stepRun`). -/
 def svcShutdown (s : S) : S :=
   match s.svc with
-  | some g => S.emit { s with live := s.live.erase g, sdLog := s.sdLog ++ [g] } (.shut g 0)
+  | some g => S.emit { s with live := s.live.erase g, sdLog := s.sdLog ++ [g], nFatal := 0 } (.shut g 0)
   | none => { s with panic := true }
 
 def failSetup (s : S) (rl : Bool) : S :=
@@ -141,6 +150,12 @@ def failSetup (s : S) (rl : Bool) : S :=
 
 def setSt (s : S) (c : CState) : S := S.emit { s with st := c } (.st c)
 
+/-- One statement of the Run goroutine. ASSUMPTION built into this definition: every call the Run goroutine makes —
+`Factories`/`configProvider.Get`/`service.New` (`setup2`), `service.Start`, `service.Shutdown`, `configProvider.Shutdown` —
+RETURNS (it may fail, it never hangs): the step is enabled whatever other goroutines do. Components or providers whose
+Start/Shutdown/Retrieve block forever are outside the model; the one way the collector ITSELF made such a call hang
+(a fatal-error report holding the status reporter's lock) is modelled separately (`Label.fatal`, Props
+`C20_run_returns_unrepaired_host_fails`) and exercised on the real code. -/
 def stepRun (s : S) (ok : Bool) : Option S :=
   match s.pc with
   | .idle | .select | .done => none
@@ -174,10 +189,23 @@ def pickEv (s : S) : Ev → Option S
   | .hup => if s.nHup > 0 then some { s with nHup := s.nHup - 1, pc := .reload1 } else none
   | .watchErr => if s.nWatchErr > 0 then some (leave { s with nWatchErr := s.nWatchErr - 1 } .watchErr) else none
   | .term => if s.nTerm > 0 then some (leave { s with nTerm := s.nTerm - 1 } .term) else none
-  | .async => if s.nAsync > 0 then some (leave { s with nAsync := s.nAsync - 1 } .async) else none
+  -- one blocked sender is received: a direct one if there is any, else a component's fatal-error hand-over
+  | .async =>
+    if s.nAsync > 0 ∨ s.nFatal > 0 then
+      some (leave { s with nAsync := s.nAsync - 1, nFatal := if s.nAsync > 0 then s.nFatal else s.nFatal - 1 } .async)
+    else none
   | .shutdown => if s.chanClosed then some (leave s .shutdown) else none
   | .ctx => if s.ctxDone then some (leave s .ctx) else none
 
+/-- External events become pending. The channels are idealised as counters; what that means per channel:
+* `hup`/`term`: a signal that ENTERED `signalsChannel` (capacity 3). `os/signal` delivers with a non-blocking send: a signal
+  arriving while three are pending is dropped before it reaches the collector — that is "OS signal delivery", outside the
+  model; the harness offers such signals for real and observes that nothing happens.
+* `watchOk`/`watchErr`: a call of the resolver's watcher func; the channel has capacity 1, a further call blocks in the
+  provider's goroutine — counted as pending here. A call still blocked when `configProvider.Shutdown` closes the channel
+  panics in the provider's goroutine: excluded by the provider contract (one notification per Retrieve, none after Shutdown).
+* `async`: a sender blocked on the unbuffered `asyncErrorChannel` that is NOT a component report (a direct user of
+  `service.Settings.AsyncErrorChannel`); component reports are `Label.fatal`. -/
 def postEv (s : S) : Ev → Option S
   | .watchOk => some { s with nWatchOk := s.nWatchOk + 1 }
   | .watchErr => some { s with nWatchErr := s.nWatchErr + 1 }
@@ -201,6 +229,7 @@ def fire (v : Variant) (s : S) : Label → Option S
   | .close => if s.closers > 0 then some (closeStep Gen.ShutdownShape.closeRecovered s) else none
   | .post e => postEv s e
   | .cancel => some { s with ctxDone := true }
+  | .fatal => some { s with nFatal := s.nFatal + 1 }
   | .begin => if s.pc = .idle then some { s with pc := .setup1 false } else none
   | .step ok => stepRun s ok
   | .pick e => if s.pc = .select then pickEv s e else none
@@ -215,7 +244,7 @@ def Reachable (v : Variant) (s : S) : Prop := ∃ ls, run v ls = some s
 
 /-- is some branch of the select ready? -/
 def S.anyReady (s : S) : Bool :=
-  s.nWatchOk > 0 || s.nWatchErr > 0 || s.nHup > 0 || s.nTerm > 0 || s.nAsync > 0 || s.chanClosed || s.ctxDone
+  s.nWatchOk > 0 || s.nWatchErr > 0 || s.nHup > 0 || s.nTerm > 0 || s.nAsync > 0 || s.chanClosed || s.ctxDone || s.nFatal > 0
 
 /-! ## trace monitor (table-independent statement of the property on an event log) -/
 
